@@ -150,6 +150,7 @@ def check_case(res, st, key):
         if st[0] == "composed":
             from valida.datapath import DataPath
             x = T.build_schema(("schema", st[1]))
+            x.to_json_like()   # (a serialisation *before* the composition must not be remembered)
             x.add_schema(T.build_schema(("schema", st[2])), DataPath(*[T.build_part(p) for p in st[3]]))
         else:
             x = T.build_schema(st)
